@@ -22,7 +22,7 @@ RULE = (
     "combinations observed, non-trivial when at least one byte was consumed"
 )
 ASSUMPTIONS = [
-    "Response with command_code=None is not a 'decodable type + command code' and is exercised only for failed responses",
+    "Response with command_code=None is exercised, too (after D18 it must end in ValueConstraintViolatedError when the response is successful)",
     "step cap: events <= 64*(len(input)+16) per decode; exceeding it is a violation, the wall-clock watchdog is inconclusive",
 ]
 
@@ -97,8 +97,12 @@ def run_shard(shard, rec):
             elif r < 0.9:
                 head = rng.choice((b"\x80\x01", b"\x80\x02")) + (len(data) + 10).to_bytes(4, "big") + b"\0\0\0\0"
                 observe(rec, "Response", head + data if rng.random() < 0.8 else data, cc=rng.choice(ccs), enc=rng.choice((None, True)), origin="random")
-            else:
+            elif r < 0.97:
                 observe(rec, "CommandResponseStream", data, origin="random")
+            else:
+                # a response decoded without any command code
+                head = rng.choice((b"\x80\x01", b"\x80\x02")) + (len(data) + 10).to_bytes(4, "big") + rng.choice((b"\0\0\0\0", b"\0\0\1\1"))
+                observe(rec, "Response", head + data, cc=None, enc=None, origin="no-command-code")
     elif k == "mutate":
         pk = corpus.packets()
         pool = [b for _f, _i, b in pk[shard["start"] :: shard["step"] * 3]]
